@@ -379,7 +379,7 @@ def main(argv=None):
             "property_id": pid,
             "tier": a.tier,
             "seed": a.seed,
-            "level": "proof",
+            "level": getattr(mod, "LEVEL", "proof"),
             "coverage": {
                 "obligations": n_ob,
                 "discharged": len(proved),
